@@ -125,7 +125,30 @@ Theorem dispatch_complete :
 Proof. exact dispatch_complete_proof. Qed.
 Print Assumptions dispatch_complete.
 
-(* 8. Regression (F13): with the traits of the pinned commit (ManifoldSculpting built from RequiresFeatures)
+(* 8. is_dummy<T> (SFINAE on `typedef int dummy`) is true exactly of the three dummy callback classes, each of
+      whose member functions is a throw statement; tapkee's real callback classes (the eigen_ and precomputed_ families) are
+      not marked and none of their members throws unconditionally. *)
+Theorem dummies_marked_and_throw :
+  (forall k, exists ms, In (dummy_class k, true, ms) (u_callback_classes uses_gen) /\ ms <> [] /\
+                        forall f th, In (f, th) ms -> th = true) /\
+  (forall n mk ms, In (n, mk, ms) (u_callback_classes uses_gen) -> starts_with "dummy_" n = false ->
+                   mk = false /\ forall f th, In (f, th) ms -> th = false).
+Proof. exact dummies_marked_and_throw_proof. Qed.
+Print Assumptions dummies_marked_and_throw.
+
+(* 9. Every place in routines/, neighbors/, methods/ and utils/features.hpp (u_deref_files) where a
+      RandomAccessIterator is dereferenced ( *it, it[i], *(it + n), it-> ) is an argument of a
+      .kernel(...) / .distance(...) / .vector(...) call: data objects are only handed to callbacks. *)
+Theorem deref_only_into_callbacks : forall file snippet into_callback,
+  In (file, snippet, into_callback) (u_derefs uses_gen) -> into_callback = true.
+Proof. exact deref_only_into_callbacks_proof. Qed.
+Print Assumptions deref_only_into_callbacks.
+
+Example deref_only_into_callbacks_nonvacuous : 40 <= List.length (u_derefs uses_gen) /\
+  In "routines/spe.hpp" (u_deref_files uses_gen) /\ In "neighbors/vptree.hpp" (u_deref_files uses_gen).
+Proof. vm_compute. repeat split; auto 60. repeat constructor. Qed.
+
+(* 10. Regression (F13): with the traits of the pinned commit (ManifoldSculpting built from RequiresFeatures)
       the usage property is refuted: supplying exactly the declared callback makes the method touch the
       dummy distance callback. *)
 Theorem uses_refuted_before_F13 :
